@@ -5,6 +5,7 @@ import (
 	"fmt"
 	goio "io"
 	"os"
+	"sort"
 
 	"github.com/evolbioinfo/gotree/io"
 	"github.com/evolbioinfo/gotree/tree"
@@ -138,7 +139,13 @@ should produce the following output:
 				}
 			}
 
+			// Sorted by name, to have a reproducible output
+			tipnames := make([]string, 0, len(tips))
 			for k := range tips {
+				tipnames = append(tipnames, k)
+			}
+			sort.Strings(tipnames)
+			for _, k := range tipnames {
 				if ok, err = refTree.ExistsTip(k); err != nil {
 					io.LogError(err)
 					return
